@@ -64,6 +64,8 @@ def _tb_open(ex, path, args, kwargs, node, fn):
 @model("h5py.File")
 def _h5(ex, path, args, kwargs, node, fn):
     f = args[0]
+    if not isinstance(f, Obj):
+        return ex.opaque_call("h5py.File", args, kwargs, path, node)
     mode = kwargs.get("mode", args[1] if len(args) > 1 else "r")
     path.ghost.setdefault("file_opens", []).append({"file": f.ident, "mode": mode, "api": "h5py", "line": node.lineno})
     o = Obj("h5.file", {"file": f})
@@ -318,3 +320,94 @@ CALLEES = {U + "read_batch": rb_callee, U + "read_batch_idx": rb_idx_callee, U +
 ASSUMPTIONS = ["pytables Table.read / read_coordinates contracts; h5py/pytables read-only opens; the YAML header yields the stored unit of each column",
                "astropy / h5py serialise and restore column data, units and YAML meta faithfully (write -> read round trip is exercised by the twin, bounded)"]
 NOT_DECIDED = ["FITS path", "slices with a step other than 1"]
+
+
+# ---- write_table_hdf5: incompatible appends are refused before anything is altered (effect analysis) --------------------------------------
+MUTATORS = ("remove", "create_group", "create_dataset", "resize")
+
+
+def _mutations(path):
+    out = []
+    for e in path.ghost.get("events", []):
+        if e.get("attempted"):
+            continue
+        last = e["name"].split(".")[-1]
+        if e["kind"] == "call" and last in MUTATORS:
+            out.append(last)
+        elif e["kind"] in ("del", "setitem", "setattr") and "output" in str(getattr(e.get("recv"), "tag", "")):
+            out.append(e["kind"])
+    return out
+
+
+@model("is_refusal", doc="spec: the path ends in an explicit `raise` of the writer (a refusal), or in the metadata-merge check raising")
+def _is_refusal(ex, path, args, kwargs, node, fn):
+    exc = path.exc
+    if exc is None:
+        return False
+    stmt = getattr(exc, "stmt", None)
+    return stmt is None or "metadata.merge" in stmt
+
+
+@model("only_documented_removals", doc="spec: nothing in the file was altered before the refusal, except the documented removals "
+                                       "(os.remove under overwrite-and-not-append, deleting the old dataset under append-and-overwrite) and creating a missing empty group")
+def _only_doc(ex, path, args, kwargs, node, fn):
+    append, overwrite = args
+    allowed = {"create_group"}
+    if overwrite is True and append is False:
+        allowed.add("remove")
+    if overwrite is True and append is True:
+        allowed.add("del")
+    return all(m in allowed for m in _mutations(path))
+
+
+@model("append_extends_existing", doc="spec: a successful append onto an existing table resizes it and writes the new rows at the end; it never re-creates the dataset")
+def _append_ext(ex, path, args, kwargs, node, fn):
+    m = _mutations(path)
+    if "resize" in m:
+        return m.index("resize") < len(m) - 1 and m[-1] == "setitem" and "create_dataset" not in m
+    return True
+
+
+LIB.update({"is_refusal": _is_refusal, "only_documented_removals": _only_doc, "append_extends_existing": _append_ext})
+
+
+def out_param(kind):
+    def build(ex, path, name):
+        o = Opaque("output")
+        o.type_pred = (lambda short: "str" in short) if kind == "str" else (lambda short: "File" in short or "Group" in short)
+        return o
+    return build
+
+
+@model("os.path.exists")
+def _exists(ex, path, args, kwargs, node, fn):
+    o = args[0]
+    b = getattr(o, "_exists", None)
+    if b is None:
+        b = o._exists = fresh_bool("file_exists") if isinstance(o, Opaque) else fresh_bool("exists")
+    return b
+
+
+LIB["os.path.exists"] = _exists
+
+write_table = []
+for kind in ("str", "group"):
+    for append in (False, True):
+        for overwrite in (False, True):
+            c = Contract(SH + "write_table_hdf5", PROPERTY,
+                         params={"table": "opaque", "output": out_param(kind), "path": ("const", "samples"), "compression": "false",
+                                 "append": "true" if append else "false", "overwrite": "true" if overwrite else "false", "serialize_meta": "true",
+                                 "metadata_conflicts": ("const", "error"), "create_dataset_kwargs": lambda ex, path, n: PyDict()},
+                         cases=[{"_name": f"output={kind},append={append},overwrite={overwrite}"}],
+                         ensures={"a-successful-append-extends-the-existing-table": "append_extends_existing()"},
+                         exc_ensures={"refused-before-anything-is-altered": f"implies(is_refusal(), only_documented_removals({append}, {overwrite}))"})
+            c.cfg_mode = True
+            c.calls_may_raise = True
+            write_table.append(c)
+CONTRACTS += write_table
+
+
+# contracts carry their own callee table / library models so that other properties can list them unchanged
+for _c in CONTRACTS:
+    _c.callees = CALLEES
+    _c.lib = LIB
